@@ -331,7 +331,7 @@ func execScript(args []string) (res result) {
 	}()
 	start := time.Now()
 	// timed scripts only make sense while this process gets scheduled promptly: a probe goroutine measures
-	// how much a 5 ms sleep oversleeps; a stall above 250 ms voids the run (it is repeated by runCase)
+	// how much a 5 ms sleep oversleeps; a stall above 150 ms voids the run (it is repeated by runCase)
 	timedScript := false
 	heldScript := false // the script stops the handler at its writes (@H): RR / SC / SS tokens are explicit
 	for _, t := range args[1:] {
@@ -365,7 +365,7 @@ func execScript(args []string) (res result) {
 	defer func() {
 		close(stopProbe)
 		probeDone.Wait()
-		if maxStall > 250*time.Millisecond {
+		if maxStall > 150*time.Millisecond {
 			res.suspicious = true
 			res.why += "stall "
 		}
@@ -547,6 +547,12 @@ func execScript(args []string) (res result) {
 				if ts[0].Sub(start) < lastAt+50*time.Millisecond {
 					res.suspicious = true
 					res.why += "early "
+				}
+				// ... and what is taken here must have been written inside the listening window (a frame of the
+				// next loop's tick, picked up because this goroutine was descheduled, voids the run)
+				if ts[len(ts)-1].Sub(start) > lastAt+460*time.Millisecond {
+					res.suspicious = true
+					res.why += "late "
 				}
 			}
 			lastAt = -1
